@@ -132,7 +132,7 @@ def settleConnect (s : Sys) (cslot : Nat) (c : Connecting) (k : Kernel) (r : Res
         connecting := eraseKey s.connecting cslot
         streams := (eraseKey s.streams c.sslot) ++ [(c.sslot, c.host, c.fd)] }, [.okConn loc peer])
   | .err e =>
-    ({ (s.setKernel c.host (k.close c.fd)) with connecting := eraseKey s.connecting cslot }, [.err e])
+    ({ (s.setKernel c.host (k.close s.cfg.fixListenerFamily c.fd)) with connecting := eraseKey s.connecting cslot }, [.err e])
 
 /-- `Fabric::egress_all`: every host in insertion order. -/
 def egressAll (cfg : Cfg) : List Kernel → List Kernel × List Packet
@@ -162,7 +162,7 @@ def step (s : Sys) : Op → Sys × List Obs
     match s.listeners.lookup lslot with
     | none => (s, [.badop])
     | some (h, fd) =>
-      ({ (s.setKernel h ((s.kernel h).close fd)) with listeners := eraseKey s.listeners lslot }, [.ok])
+      ({ (s.setKernel h ((s.kernel h).close s.cfg.fixListenerFamily fd)) with listeners := eraseKey s.listeners lslot }, [.ok])
   | .connect h cslot sslot peer =>
     let (k1, fd) := (s.kernel h).openSock peer.ip.isV6 false
     let (k2, r) := k1.pollConnect s.cfg fd peer
@@ -177,7 +177,7 @@ def step (s : Sys) : Op → Sys × List Obs
     match s.connecting.lookup cslot with
     | none => (s, [.badop])
     | some c =>
-      ({ (s.setKernel c.host ((s.kernel c.host).close c.fd)) with connecting := eraseKey s.connecting cslot }, [.ok])
+      ({ (s.setKernel c.host ((s.kernel c.host).close s.cfg.fixListenerFamily c.fd)) with connecting := eraseKey s.connecting cslot }, [.ok])
   | .accept lslot sslot =>
     match s.listeners.lookup lslot with
     | none => (s, [.badop])
@@ -224,7 +224,7 @@ def step (s : Sys) : Op → Sys × List Obs
     match s.streams.lookup sslot with
     | none => (s, [.badop])
     | some (h, fd) =>
-      ({ (s.setKernel h ((s.kernel h).close fd)) with streams := eraseKey s.streams sslot }, [.ok])
+      ({ (s.setKernel h ((s.kernel h).close s.cfg.fixListenerFamily fd)) with streams := eraseKey s.streams sslot }, [.ok])
   | .udpBind h uslot addr =>
     match (s.kernel h).bind addr true with
     | (k1, .ok fd) =>
